@@ -78,3 +78,42 @@ class time_limit:
         signal.setitimer(signal.ITIMER_REAL, 0)
         signal.signal(signal.SIGALRM, self._old)
         return False
+
+
+class no_pattern_encoders:
+    """context: encoder selection without the pattern encoders (used to attribute a violation to them or not)"""
+
+    def __enter__(self):
+        import adsg_core.optimization.assign_enc.selector as sm
+        self.sm = sm
+        self.saved = list(sm.PATTERN_ENCODERS)
+        sm.PATTERN_ENCODERS[:] = []
+        return self
+
+    def __exit__(self, *exc):
+        self.sm.PATTERN_ENCODERS[:] = self.saved
+        return False
+
+
+def attribute_to_pattern_encoders(col, n0, rerun):
+    """Violations col.violations[n0:] of one case that carry a pattern encoder in where['conn_enc'] are re-examined:
+    the case is re-run with pattern encoders excluded from selection.  Violations that persist are reported from the
+    re-run (with the non-pattern encoder in their context, so the pattern-encoder known finding cannot swallow them);
+    those that vanish stay attributed to the pattern encoders."""
+    from ..core import Collector
+    new = col.violations[n0:]
+    tagged = [v for v in new if 'PatternEncoder' in str(v.get('where', {}).get('conn_enc', ''))]
+    if not tagged:
+        return
+    tmp = Collector()
+    try:
+        with no_pattern_encoders():
+            rerun(tmp)
+    except Exception:  # noqa
+        return
+    col.count('pattern_attribution_reruns')
+    persist = {(v['symptom']) for v in tmp.violations}
+    keep = [v for v in new if v not in tagged or v['symptom'] not in persist]
+    for v in tmp.violations:
+        v.setdefault('where', {})['after_excluding_pattern_encoders'] = True
+    col.violations[n0:] = keep + tmp.violations
